@@ -555,19 +555,26 @@ PROPS["C08"] = {
     "lean_modules": ["EcModel.Props.C08"],
     "harness": ["c08"],
     "both_profiles": True,
-    "t1_facts": ["SyncManagerType", "FmmuUsage", "Fmmu", "SyncManagerChannel", "Direction", "OperationMode"],
+    "t1_facts": ["SyncManagerType", "FmmuUsage", "Fmmu", "SyncManagerChannel", "Direction", "OperationMode", "config:"],
     "modelled": "PdiOffset::{increment,increment_byte_aligned,up_to}; SubDeviceRef::{configure_mailbox_sms,configure_fmmus,"
                 "configure_pdos_coe,configure_pdos_eeprom,write_sm_config,write_fmmu_config (incl. the read-modify-write 'FMMU "
                 "already enabled => extend' branch)}; SyncManager::usage_type; SubDeviceGroup::configure_fmmus (inputs pass, outputs "
                 "pass, PdiTooLong); SubDeviceGroupRef::into_pre_op (offset += MAX_PDI as u16); MainDevice::init's group map order "
-                "(heapless IndexMap drained from the back); all u16/u32/usize arithmetic through Ec.Mode; device side: FMMU "
+                "(heapless IndexMap drained from the back); all unchecked u64/u32/usize arithmetic through Ec.Mode (PDO bit lengths "
+                "are summed and multiplied in u64; byte lengths go through u16::try_from(bits.div_ceil(8))? = Err.intConv; the shared "
+                "FMMU is extended with checked_add; widths and shapes regenerated from the source: t1_config_arithmetic); device side: FMMU "
                 "translation (byte granular; theorem fmmus_byte_aligned) and sync manager windows per ETG1000.4 6.6/6.7",
     "rule": "corpus (plain terminals, 3 interleaved groups, exact fit / one byte too long, CoE with contiguous and with "
             "non-contiguous sync managers, FoE device with 3 FMMUs, >8 sync managers, missing FMMU usage, oversampling, derived SM "
-            "types, the witnesses of the four known findings) then random lines of 1..16 simulated devices: no mailbox / mailbox "
+            "types, the witnesses of the three known findings and of the repaired u16 bit-length overflow (8x129x64 bit, 2x64 bit x "
+            "oversampling 512, 5x255x64 bit as inputs and outputs, 65528/65529/65535/65536 bits, 524280 and 524281 bits = 65535 "
+            "bytes / IntegerTypeConversion, 9 and 8 PDOs of 255x255 bit, 20 such PDOs x oversampling 65535, CoE 2 x 40000 bytes on "
+            "one FMMU) then random lines of 1..16 simulated devices: no mailbox / mailbox "
             "without CoE / CoE; 0-3 output and 0-3 input sync managers interleaved at random, declared or control-derived type, "
             "enable byte variants; 0-8 PDOs per direction with 0-6 (rarely up to 60) entries of 1..64 (rarely ..255) bits; "
-            "oversampling lists; FMMU usage list variants (shuffled, duplicates, 0xFF, missing); FMMU_EX lists; 1-16 FMMU entities; "
+            "oversampling lists; 1 device in 25 has one sync manager whose bit sum is 65528+-16 / 65535+-16 / 65536+-16 bits or "
+            "524280+-16 bits (65535 bytes, the register limit), composed of PDOs of up to 255 64-bit entries and oversampling "
+            "factors up to 1024; FMMU usage list variants (shuffled, duplicates, 0xFF, missing); FMMU_EX lists; 1-16 FMMU entities; "
             "contiguous or gapped physical layout; 1-3 groups with MAX_PDI from {1,6,40,300,4000,65535} fitting or not. Real "
             "MainDevice::init -> into_safe_op -> into_op -> 2 x tx_rx per group on the simulated segment (dev profile: overflow "
             "checks on; thorough also release profile: wrapping). Compared with drv_c08: per group start/read_len/pdi_len or error "
@@ -581,13 +588,16 @@ PROPS["C08"] = {
         "fmmu_maps_exactly / outputs_reach_only_owner / inputs_come_only_from_owner are PARTIAL: hypotheses FmmuAvail (every FMMU "
         "number the MainDevice picks exists in the controller) and SharedContig (CoE path: sync managers sharing the one FMMU are "
         "physically contiguous); cross-group isolation needs the other group's layout to fit its MAX_PDI (a group that failed "
-        "keeps its FMMUs); u16 bit-length sums must not overflow (checked build panics, wrapping build mis-sizes) - each excluded "
-        "class has a _counterexample theorem and a monitor key in KNOWN_FINDINGS.txt",
+        "keeps its FMMUs) - each excluded class has a _counterexample theorem and a monitor key in KNOWN_FINDINGS.txt",
+        "configuration_total / exact_windows_or_error / unrepresentable_length_is_error / network_total: Device.TypesOk (the "
+        "numbers of a description fit the Rust types they are read into: u16 PDO bit lengths, oversampling factors and mailbox "
+        "sizes, u8 mapping lengths and counts, <= 64 EEPROM PDOs per direction - what C13 collections_bounded gives) and the "
+        "logical range inside u32 (start + 1048560 x devices < 2^32, i.e. up to 3855 devices; the u32 address addition itself is "
+        "still unchecked in the source)",
         "device-side FMMU semantics are the simulator's (harness/src/sim/esc.rs::logical), restated in Lean as Fmmu.hit / fmmuMap; "
         "the marker round trip through real tx_rx cycles checks them against each other on every case",
     ],
-    "known_keys_expected": ["c08/coe-multi-sm-shared-fmmu", "c08/eeprom-fmmu-index-is-sm-index", "c08/failed-group-keeps-fmmus",
-                            "c08/pdo-bit-length-u16-overflow"],
+    "known_keys_expected": ["c08/coe-multi-sm-shared-fmmu", "c08/eeprom-fmmu-index-is-sm-index", "c08/failed-group-keeps-fmmus"],
 }
 
 MANIFEST_TEXT["C08"] = {
@@ -598,15 +608,29 @@ MANIFEST_TEXT["C08"] = {
             "for byte onto the programmed sync managers and nothing else onto the device), window_is_backed, window_reaches_owner, "
             "window_reaches_only_owner, outputs_reach_only_owner, inputs_come_only_from_owner, translations_inside_group; for every "
             "partition into groups: groups_disjoint, groups_isolated; release_agrees_with_debug (wrapping build = checking build "
-            "wherever the latter does not panic). Proof: successful loop runs are shown equal to pure folds over the direction's "
+            "wherever the latter does not panic). After the repair of c08/pdo-bit-length-u16-overflow (fix-c08-pdo-bit-length: bit "
+            "sums in u64, byte length by u16::try_from, checked FMMU extension) FULL statements replace the former "
+            "bit_length_overflow_counterexample: configuration_total (for EVERY description the Rust types allow - any number of "
+            "sync managers, PDOs, entries, any bit lengths and oversampling factors - and up to 3855 devices, configuring a group "
+            "never panics and yields the same layout or the same error in the overflow-checking and the wrapping build), "
+            "exact_windows_or_error (either an error, or every window has exactly the required length and every process-data sync "
+            "manager exactly ceil(its bits / 8) bytes, a value its 16-bit register holds: sm_length_exact, registers_representable), "
+            "unrepresentable_length_is_error (a sync manager needing more than 65535 bytes always ends in an error), network_total / "
+            "network_total_16 (init's group addresses and every group, both modes), t1_config_arithmetic (the widths and checked "
+            "conversions the model uses are the source's). Old witnesses kept as bit_length_overflow_fixed (81600 bits -> 10200 "
+            "bytes in both modes, PdiTooLong{4000,10200}; 65536 bits -> 8192 bytes) and unrepresentable_lengths_are_errors. "
+            "Proof: the Safe calculus (never panics + mode independent, closed under bind) over the loops with the u64 bounds "
+            "derived from the type bounds; successful loop runs are shown equal to pure folds over the direction's "
             "sync managers, whose register/offset/translation effect is characterised by induction; two passes composed per device; "
             "tilings per group. Counterexample theorems (kernel-evaluated on the model, reproduced on the real code every run): "
             "fmmu_maps_exactly_counterexample (CoE: several sync managers share one FMMU), fmmu_avail_counterexample (EEPROM path: "
-            "FMMU number := SM number), failed_group_keeps_fmmus_counterexample, bit_length_overflow_counterexample.",
+            "FMMU number := SM number), failed_group_keeps_fmmus_counterexample.",
     "note": "Trusted: Lean kernel; hand translation of the configuration code (validated by diffing windows and all SM/FMMU "
             "registers against the real stack on a simulated segment, dev and release profile); the simulator's FMMU semantics as "
-            "the device side; the cooperative-environment assumptions. Partial where the code breaks the property: see the four "
-            "known findings.",
+            "the device side; the cooperative-environment assumptions. Partial where the code breaks the property: see the three "
+            "known findings. The bit-length arithmetic is no longer partial (repaired; full theorems under the type bounds). Left "
+            "unchecked in the source: the u32 logical address addition (PdiOffset::increment), which needs > 3855 devices of "
+            "maximal size to overflow - outside the property's 16.",
     "technique": "Lean 4 proof (refinement of the imperative loops to pure folds + invariants by induction, all inputs) + "
                  "differential correspondence on a simulated EtherCAT segment + marker round-trip monitor",
 }
@@ -990,8 +1014,10 @@ PROPS["C13"] = {
         "provider serves 4 or 8 bytes per read_chunk (theorems: >= 4) and never fails; device memory holds bytes (< 256)",
         "the arguments of EepromRange::new are u16 values (its signature), so its u32 arithmetic is exact",
         "the release run generates a third of the random / mutated images of the dev run",
-        "the configuration arithmetic that consumes PDO bit lengths (configure_pdos_*, increment_byte_aligned) is not covered "
-        "by this check: it needs a MainDevice + simulated segment (C08's model)",
+        "the configuration arithmetic that consumes PDO bit lengths (configure_pdos_eeprom's products and sum, the byte-length "
+        "conversion, increment_byte_aligned's rounding) is covered by theorem only (Props/C13Config over C08's model "
+        "EcModel/Config.lean, which C08's harness diffs against the real code on a simulated segment, incl. EEPROMs with 20 PDOs "
+        "of 255x255 bit and oversampling 65535); this check's own harness does not run a MainDevice",
     ],
 }
 
@@ -1009,8 +1035,9 @@ MANIFEST_TEXT["C13"] = {
     "note": "Trusted: Lean kernel; hand translation (which operations can panic, evaluation order) validated by diffing outcome, "
             "panic site and provider-call count on ~1.2 k (quick) / ~20 k (thorough) images over both profiles; T1 checks the "
             "source shape of every repaired site (checked_add, usize size, u32 cursor, read_byte guard) so that a regression to "
-            "unchecked arithmetic is reported even before a failing image is found. Not covered: configure_pdos_* / "
-            "increment_byte_aligned arithmetic on PDO bit sums (C08).",
+            "unchecked arithmetic is reported even before a failing image is found. The configure_pdos_* / "
+            "increment_byte_aligned arithmetic on PDO bit sums, formerly not covered (u16, c08/pdo-bit-length-u16-overflow), is "
+            "repaired (fix-c08-pdo-bit-length) and proved total in Props/C13Config; its tie to the code is C08's.",
     "technique": "Lean 4 proof (Hoare calculus over a total model with explicit panic/fuel outcomes, both overflow modes) + differential correspondence",
 }
 
@@ -1135,3 +1162,14 @@ PROPS["C20"]["rule"] += (" || c20m: the schedule-controlled runs of the real PDU
                          "cross-talk monitors only: a view/iterator never shows data other than what the network returned for ITS request, "
                          "no data without an accepted response, every observed status change is an edge of the lifecycle (a slot freed or "
                          "re-queued under another task's live request is how tasks disturb each other), no panic")
+
+# C13 appendix (builder-c08): the configuration arithmetic on EEPROM-supplied PDO bit lengths, after fix-c08-pdo-bit-length
+PROPS["C13"]["lean_modules"].append("EcModel.Props.C13Config")
+MANIFEST_TEXT["C13"]["text"] += (" C13Config (closes the former gap 'configure_pdos_* arithmetic not covered'): eeprom_pdos_within_types "
+    "(for every memory, chunk size and build mode, SubDeviceEeprom::pdos returns at most 64 PDOs, each with bit_len <= 255 x 255 = "
+    "65025), pdo_configuration_arithmetic_total (for every such list, every oversampling configuration with u16 factors and every "
+    "sync manager index, the u64 bit-length sum of configure_pdos_eeprom never panics, is the exact sum and is the same in the "
+    "overflow-checking and the wrapping build; the byte length derived from it is a value or Err(IntegerTypeConversion), never a "
+    "panic; div_ceil(8) of any u16 bit count is at most 8192: no `+ 7` overflow in increment_byte_aligned), pdo_sum_255x255_fixed "
+    "(64 PDOs x 65025 bits x oversampling 65535 = 272 730 456 000 bits computed exactly in both modes, then refused with "
+    "IntegerTypeConversion; 5 x 65025 bits = 40641 bytes).")
